@@ -68,6 +68,23 @@ def mode_api(spec):
             handles[o["h"]].uninstall()
         elif o["op"] == "import":
             importlib.import_module(o["module"])
+        elif o["op"] in ("reimport", "edit_reimport"):
+            m = o["module"]
+            if m in sys.modules:
+                if o["op"] == "edit_reimport":
+                    # the source is edited while the process is running (VERSION bumped, mtime +2 s)
+                    path = sys.modules[m].__file__
+                    st = os.stat(path)
+                    lines = [l for l in open(path).read().splitlines() if not l.startswith("VERSION = ")]
+                    with open(path, "w") as f:
+                        f.write("\n".join(lines) + f"\nVERSION = {o['version']}\n")
+                    os.utime(path, (st.st_atime, st.st_mtime + 2))
+                del sys.modules[m]
+                if "spychk" in sys.modules:  # the spy log describes module OBJECTS: forget the dropped one
+                    sp = sys.modules["spychk"]
+                    sp.LOG[:] = [e for e in sp.LOG if e[1] != m]
+                importlib.invalidate_caches()
+                importlib.import_module(m)
         elif o["op"] == "import_failing":
             # a module that cannot be compiled; the program survives it (try: import optional ... except)
             try:
